@@ -98,6 +98,22 @@ def run(prog, chk):
                'reset does not draw from the random generator: a projection-style reset post-selects the partners of an entangled target '
                '(e.g. Bell pair, reset one half: the partner then reads 0 with certainty instead of 50/50)', key='samples')
         return
+    # the two sweeps are all reset does to the amplitudes: a write on any other path (a shortcut for "already collapsed" targets, say)
+    # is outside what is proved below
+    inside = {id(y) for lp_ in loops for y in SX.walk(lp_, into_lambdas=False)}
+    stray = []
+    for y in SX.walk(rs.body, into_lambdas=False):
+        w_ = SX.write_target(y)
+        tgt_ = SX.strip(w_[0]) if w_ else None
+        if SX.is_node(tgt_) and tgt_.get('k') == 'index' and SX.show(tgt_.get('base')) == amp and id(y) not in inside:
+            stray.append(y)
+        if y.get('k') == 'call' and (y.get('callee') or '').startswith('std::swap') and amp in SX.show(y) and id(y) not in inside:
+            stray.append(y)
+    if stray:
+        chk.ob('R04.1', rs, stray[0].get('ln', rs.ln), False,
+               'reset writes amplitudes outside its accumulation and update sweeps (%d writes, first at line %s): the statistics of the other qubits are proved for the two sweeps only — '
+               'a shortcut path has to keep them as well' % (len(stray), stray[0].get('ln')), key='weights')
+        return
     if len(loops) != 2:
         raise AnalysisBroken('reset: expected an accumulation loop and an update loop, found %d loops' % len(loops))
     aliases = KP.size_aliases(rs.body, amp)
